@@ -105,16 +105,22 @@ def battery(pr, open_bufs, disk, rng_seed):
     texts.update(open_bufs)
     for name in sorted(texts):
         uri = pr.uri(name)
-        for m in DOC_METHODS:
-            out["%s %s" % (m, name)] = pr.srv.request(m, doc_params(m, uri))
         toks = [(k, t) for k, t in lexer.tokens(texts[name])]
         pos = [p for p in positions(rng, texts[name]) if p[0] == "identifier"]
         rng.shuffle(pos)
+        # (the first occurrence of a name that another statement uses as a segment name expression is always among them)
+        k0 = texts[name].find("segname")
+        if k0 >= 0:
+            pos.insert(0, ("identifier", texts[name].count("\n", 0, k0), k0 - (texts[name].rfind("\n", 0, k0) + 1)))
+        # the position queries come first and the outline requests of the file behind them: the second round below then asks the
+        # position queries again AFTER the outlines have been served
         for cls, ln, ch in pos[:10]:
             for m in POS_METHODS:
                 if m in ("textDocument/rename",):
                     continue   # a rename request changes the server's state (that is one of the things under test): not part of the battery
                 out["%s %s:%d:%d" % (m, name, ln, ch)] = pr.srv.request(m, params_for(m, uri, ln, ch))
+        for m in DOC_METHODS:
+            out["%s %s" % (m, name)] = pr.srv.request(m, doc_params(m, uri))
     out["workspace/symbol"] = pr.srv.request("workspace/symbol", {"query": ""})
     # the same questions once more, now that every kind of request has been served: reading must not change the answers
     again = {}
